@@ -6,11 +6,12 @@ import Pacti.Driver.OpsPlots
 import Pacti.Driver.OpsAlg
 import Pacti.Driver.OpsEq
 import Pacti.Driver.OpsCompound
+import Pacti.Driver.OpsSession
 open Lean Wire
 
 /-- every op family registers one handler here -/
 def handlers : List (String → Json → Option (Except String Json)) :=
-  [handlePoly, OpsSym.handleSym, OpsElim.handleElim, handlePlots, OpsAlg.handleAlg, handleEq, handleCompound]
+  [handlePoly, OpsSym.handleSym, OpsElim.handleElim, handlePlots, OpsAlg.handleAlg, handleEq, handleCompound, OpsSession.handleSession]
 
 def handle (j : Json) : Except String Json := do
   let op ← (← j.getObjVal? "op").getStr?
